@@ -1116,7 +1116,11 @@ def wave8_rules(ctx):
     # (shared with C13.lazy), (8) the definitions of the runtime helpers the emitted text calls (shared with C03.helpers)
     from share import relabel
     from rules.c05 import check_mirror
-    obs += relabel(check_mirror(ctx), "C05.mirror/analysis", "C04.scope/analysis")
+    mir_ = check_mirror(ctx)
+    obs += relabel(mir_, "C05.mirror/analysis", "C04.scope/analysis")
+    # wave 13: the generator's side of the same bracket - what a child sees on the scope stack is what the analysis pass saw, so the
+    # scopes one child element pushes are gone before its next sibling is generated (a leak renders the wrong variable)
+    obs += relabel(mir_, "C05.mirror/gen", "C04.scope/gen")
     from rules.c13 import lazy_rule
     obs += relabel(lazy_rule(ctx), "C13.lazy/import-table", "C04.proto/import-table")
     from rules.c03 import helper_defs_rule
